@@ -328,61 +328,16 @@ def to (fmt32 fmt64 : F → List Nat) : Tgt → Src → R Val
   | .str, s => Val.str <$> toStr fmt32 fmt64 s
   | .big, s => Val.int <$> toBigInt s
 
-/-- The one check attached to the schemas of the correspondence: a bound on the number, or a
-    bound on the byte length of a string. -/
-inductive Chk where
-  | nochk
-  | cmp (op : CmpOp) (b : Num)
-  | minLen (n : Nat) | maxLen (n : Nat)
-  | cmpBig (op : CmpOp) (b : Int)     -- a BigInt schema's Gt/Gte/Lt/Lte with a `*big.Int` bound
-  deriving Repr, Inhabited
-
-/-- The bound check of a BigInt schema after `fix: compare and divide big integers exactly`:
-    `validate.Gt(value, n)` on two `*big.Int` is `big.Int.Cmp`. -/
-def bigCmpExact (op : CmpOp) (v b : Int) : Bool := op.holdsInt v b
-
-/-- Before that fix: both operands through `coerce.ToFloat64` (`bigIntToFloat64`: the nearest
-    float64, an error beyond MaxFloat64 — then the check is false), floats compared.  Kept so
-    that the defect stays a theorem (`legacy_bigint_check_witness`). -/
+/-- The bound check of a BigInt schema BEFORE `fix: compare and divide big integers exactly` (/repo
+    4945548): both operands through `coerce.ToFloat64` (`bigIntToFloat64`: the nearest float64, an error
+    beyond MaxFloat64 — then the check is false), floats compared.  Kept so that the defect stays a
+    theorem (`C17S.legacy_bigint_check_witness`); the current check is `NumBig.xcmp` (C16B.c16_big_cmp). -/
 def bigCmpViaFloat (op : CmpOp) (v b : Int) : Bool :=
   match finOrOverflow (bigToF64 v), finOrOverflow (bigToF64 b) with
   | .ok x, .ok y => (match F.cmp x y with
     | some o => op.ofOrdering o
     | none => false)
   | _, _ => false
-
-def Val.num (t : Tgt) : Val → Option Num
-  | .int v => match t with
-    | .int ty => some (Num.ofInt ty v)
-    | _ => none
-  | .flt x => some (.f x)
-  | _ => none
-
-def Chk.holds (t : Tgt) (c : Chk) (v : Val) : Bool :=
-  match c with
-  | .nochk => true
-  | .cmp op b => match v.num t with
-    | some n => implCmp op n b
-    | none => true
-  | .minLen n => match v with
-    | .str bs => decide (bs.length ≥ n)
-    | _ => true
-  | .maxLen n => match v with
-    | .str bs => decide (bs.length ≤ n)
-    | _ => true
-  | .cmpBig op b => match t, v with
-    | .big, .int n => bigCmpExact op n b
-    | _, _ => true
-
-/-- The non-coercing schema on a value that already has the schema's type. -/
-def parsePlain (t : Tgt) (c : Chk) (v : Val) : R Val :=
-  if c.holds t v then .ok v else .error .check
-
-/-- What the engine does with the outcome of `coerce.To[T]`: checks on success, an
-    invalid-type issue on failure. -/
-def afterCoerce (t : Tgt) (c : Chk) : R Val → R Val
-  | .ok v => parsePlain t c v
-  | .error _ => .error .invalidType
 
 /-- Has the source (after the engine's own pointer dereference) exactly the schema's type? -/
 def exact : Tgt → Src → Option Val
@@ -394,13 +349,8 @@ def exact : Tgt → Src → Option Val
   | .big, .big v => some (.int v)
   | _, _ => none
 
-/-- `parsePrimitiveValue` with `internals.Coerce` set: the exact type match first, coercion
-    only when it fails, then the checks on the coerced value; a failed coercion is an
-    invalid-type error.  (nil input is C03's business and not modelled here.) -/
-def parseCoerced (fmt32 fmt64 : F → List Nat) (t : Tgt) (c : Chk) (s : Src) : R Val :=
-  match exact t s with
-  | some v => parsePlain t c v
-  | none => afterCoerce t c (to fmt32 fmt64 t s)
+/- The coercing schema itself (`parsePrimitiveValue` with `internals.Coerce`, over C01's `Prim.parse` and
+   C16's checks) is `Gozod.Model.CoerceSchema` (round 4c). -/
 
 /-! ## The pinned commit's float branches (defects as theorems) -/
 namespace Legacy
